@@ -1,6 +1,8 @@
 /- C11 invariants, part 14: threads and transactions that do not exist; the database write lock;
    initial states; reachable states -/
 import SemaModel.C11.Inv13
+set_option linter.unusedSimpArgs false
+set_option linter.unusedVariables false
 namespace Sema.C11
 
 structure InvOut (s : St) : Prop where
